@@ -5,13 +5,16 @@
 set -u
 export GOFLAGS=-mod=mod GOPROXY=off
 id=$1; pkg=$2; shift 2
-wt=/tmp/wt/$id; out=/tmp/seedout/$id; dst=/verif/seeded/$id
+# ROUND=2 reads /tmp/seedout2/<ID> and files the change as seeded/<ID>-r2
+r=${ROUND:-1}; suf=""; src=/tmp/seedout; [ "$r" != 1 ] && { suf="-r$r"; src=/tmp/seedout$r; }
+wt=/tmp/wt/$id; out=$src/$id; dst=/verif/seeded/$id$suf
+export VERIF_EVIDENCE_DIR=/tmp/seed_ev; mkdir -p /tmp/seed_ev
 mkdir -p $dst
 cp $out/patch.diff $dst/; cp $out/notes.md $dst/ 2>/dev/null
 for f in demo_test.go demo.lisp; do [ -f $out/$f ] && cp $out/$f $dst/; done
 log=$dst/confirm.log; : > $log
 cd $wt
-git checkout -q -- . 2>/dev/null; git stash list | grep -q . && git stash drop -q
+git checkout -q -- . 2>/dev/null; git checkout -q --detach $(git -C /repo rev-parse HEAD); git stash list | grep -q . && git stash drop -q
 git apply --check $dst/patch.diff || { echo "patch does not apply" | tee -a $log; exit 1; }
 demo=zz_seed_demo_test.go
 cp $dst/demo_test.go $pkg/$demo
